@@ -155,3 +155,14 @@ def run(pid, tier, seed, args):
         tier, res["scenarios"], res["total"], res["steps"], res["evals"], len(paths), time.time() - t0, len(viols),
         n_unknown, " CAPPED: " + res["capped"] if res["capped"] else ""))
     return 1 if n_unknown else 0
+
+
+def replay(path):
+    import json
+    from .. import runner
+    with open(path) as f:
+        rp = json.load(f)
+    if isinstance(rp.get("history"), dict):
+        return scen.replay_scenario(path, Mon, "C16")
+    import sys
+    return runner.generic_replay(sys.modules[__name__], "C16", path)
